@@ -183,9 +183,18 @@ Record oracc := {
 Definition oracc0 : oracc :=
   {| oa_needles := []; oa_nested := []; oa_patterns := []; oa_any := []; oa_rest := [] |}.
 
+(* fix D29: a nested block whose body is an all() list is not merged with other blocks on the
+   same field (it asks each member to be satisfied by some element of an array; merged it would be
+   evaluated per element) *)
+Definition is_all_match (e : expr) : bool := match e with EMatch MAll _ => true | _ => false end.
+
 Definition or_classify (a : oracc) (shaken : expr) : oracc :=
   match shaken with
   | ENested f inner =>
+      if is_all_match inner then
+        {| oa_needles := oa_needles a; oa_nested := oa_nested a; oa_patterns := oa_patterns a;
+           oa_any := oa_any a; oa_rest := oa_rest a ++ [shaken] |}
+      else
       {| oa_needles := oa_needles a; oa_nested := amap_push f [inner] (oa_nested a);
          oa_patterns := oa_patterns a; oa_any := oa_any a; oa_rest := oa_rest a |}
   | ESearch (SAho ctx ci) f cast =>
@@ -295,10 +304,10 @@ Fixpoint shake1 (fuel : nat) (e : expr) : expr :=
           let shaken := map (shake1 fu) l in
           let nested :=
             fold_left (fun m x => match x with
-                                  | ENested f inner => amap_push f [inner] m
+                                  | ENested f inner => if is_all_match inner then m else amap_push f [inner] m
                                   | _ => m
                                   end) shaken [] in
-          let plain := filter (fun x => match x with ENested _ _ => false | _ => true end) shaken in
+          let plain := filter (fun x => match x with ENested _ inner => is_all_match inner | _ => true end) shaken in
           let merged :=
             map (fun kv : key * list expr =>
                    let '(f, es) := kv in
@@ -399,10 +408,13 @@ Fixpoint conj_lookup (es : list expr) (m : list (str * expr)) : option (list (st
   | [] => Some m
   | x :: rest =>
       match x with
-      | EBexp l _ _ =>
+      | EBexp l _ r =>
+          (* fix D18/D19: only what the first scan counts (conj_valid1) can become a cell *)
           match left_field l with
-          | Some f => if has_key f m then None else conj_lookup rest (m ++ [(f, x)])
-          | None => conj_lookup rest m
+          | Some f => if is_const r
+                      then (if has_key f m then None else conj_lookup rest (m ++ [(f, x)]))
+                      else None
+          | None => None
           end
       | ENested f _ | ESearch _ f _ =>
           if has_key f m then None else conj_lookup rest (m ++ [(f, x)])
